@@ -63,7 +63,48 @@ def gen_cases(rng, tier):
             ts = rand_ts(rng, w, h)
         cases.append(("pat_px", [kind, sw, sh, rng.getrandbits(40), int(rng.random() < 0.25), ox, oy] + ts +
                       [rng.randrange(3), rng.randrange(3), f2b(rng.choice([1.0, 1.0, 1.0, 0.5, 0.999, 0.0])), rng.randrange(2), rng.randrange(3), w, h]))
+    # the whole nearest-neighbour coordinate chain (seed_shader, transform, tiling, gather) through the public API:
+    # which source pixel every destination pixel receives, bit-exact against Model/Nearest.v
+    for i in range(700 if q else 8000):
+        w, h = rng.choice([(24, 5), (33, 3), (16, 4), (9, 2), (70, 2), (8, 8), (1, 1), (rng.randint(1, 40), rng.randint(1, 6))])
+        sw, sh = rng.choice([(1, 1), (2, 3), (5, 3), (7, 4), (4, 7), (8, 8), (20, 20), (3, 1), (1, 5), (13, 6), (31, 2), (rng.randint(1, 50), rng.randint(1, 9))])
+        kind = rng.choice([0, 1, 1])
+        k = rng.random()
+        if k < 0.6:
+            ox = rng.choice([0, 1, 5, -1, -3, w - 2, w, w + 5, -sw, -sw + 1, sw, 2 * sw, -2 * sw, rng.randint(-60, 60)])
+            oy = rng.choice([0, 2, -1, h - 1, h, -sh, sh, -3 * sh, rng.randint(-20, 20)])
+        elif k < 0.9:
+            ox, oy = rng.randint(-5000, 5000), rng.randint(-5000, 5000)
+        else:
+            ox, oy = rng.choice([-1, 1]) * rng.randint(10**5, 4 * 10**6), rng.choice([-1, 1]) * rng.randint(10**5, 4 * 10**6)
+        if kind == 0 and rng.random() < 0.8:   # keep the source rectangle at least partly on the destination
+            ox = rng.randint(-sw + 1, w - 1)
+            oy = rng.randint(-sh + 1, h - 1)
+        cases.append(("nearest_map", [kind, sw, sh, ox, oy, rng.randrange(3), w, h]))
     return cases
+
+
+def nearest_expected(args):
+    """the property itself: destination pixel (c, r) shows source pixel tile(c - ox), tile(r - oy)"""
+    kind, sw, sh, ox, oy, spread, w, h = args
+    def tile(i, n, sp):
+        if sp == 0:
+            return min(max(i, 0), n - 1)
+        if sp == 1:
+            m = i % (2 * n)
+            return m if m < n else 2 * n - 1 - m
+        return i % n
+    out = []
+    for r in range(h):
+        for c in range(w):
+            if kind == 0:
+                if ox <= c < ox + sw and oy <= r < oy + sh:
+                    out.append((r - oy) * sw + (c - ox))
+                else:
+                    out.append(-1)
+            else:
+                out.append(tile(r - oy, sh, spread) * sw + tile(c - ox, sw, spread))
+    return out
 
 
 WHAT = {1: "nearest sampling returned a different source pixel (got r*1000+a %d, expected %d)",
@@ -74,6 +115,19 @@ WHAT = {1: "nearest sampling returned a different source pixel (got r*1000+a %d,
 
 
 def oracle(suite, args, out):
+    if suite == "nearest_map" and not out.startswith(("PANIC", "CRASH", "HANG")):
+        o = ints(out)
+        if o and o[0] == -3:
+            return None
+        e = nearest_expected(args)
+        if max(abs(args[3]), abs(args[4])) > 2 ** 21:
+            return None   # beyond the range where pixel centres plus the offset are exact in binary32: correspondence only
+        if len(o) != len(e):
+            return "nearest_map returned %d pixels for a %dx%d destination" % (len(o), args[6], args[7])
+        for i, (a, b) in enumerate(zip(o, e)):
+            if a != b:
+                return "destination pixel (%d,%d) shows source pixel %d where the mapped position is source pixel %d" % (i % args[6], i // args[6], a, b)
+        return None
     if out.startswith(("PANIC", "CRASH", "HANG")):
         return "implementation did not return: " + out[:200]
     o = ints(out)
@@ -88,11 +142,13 @@ def oracle(suite, args, out):
 
 
 def relation(suite, args, mo, io):
-    return mo == io or (suite != "gather" and mo.strip() == "-9")
+    return mo == io or (suite == "pat_px" and mo.strip() == "-9")
 
 
 def nontrivial_tag(suite, args, out):
     o = out.split()
     if suite == "gather":
         return "gather"
+    if suite == "nearest_map":
+        return "nearest:kind%d:s%d" % (args[0], args[5] % 3) if any(v != "-1" for v in o) else None
     return "kind%d:f%d:s%d" % (args[0], args[14] % 3, args[13] % 3) if len(o) >= 11 and o[0] not in ("0", "-3") else None
